@@ -187,7 +187,13 @@ func DecodeIdFromList(cborData []byte) (int, error) {
 	if listLen == 0 {
 		return 0, errors.New("cannot return first item from empty list")
 	}
-	if listLen < int(CborMaxUintSimple) {
+	// The shortcut is only valid when the list header is a single byte
+	// (definite length < 24, or the indefinite-length marker); a non-minimal
+	// header (0x98..0x9b) puts length bytes, not the first item, at index 1
+	oneByteHeader := (cborData[0] >= CborTypeArray &&
+		cborData[0] <= CborTypeArray+CborMaxUintSimple) ||
+		cborData[0] == CborTypeArray+0x1f
+	if listLen < int(CborMaxUintSimple) && oneByteHeader {
 		if cborData[1] <= CborMaxUintSimple {
 			return int(cborData[1]), nil
 		}
